@@ -22,12 +22,13 @@ func init() {
 				"path parameter to the key/filename handed to the backing store is identical in Exists and Open (locals inlined, receiver/parameter renamed); (C19.dir) an Exists backed by a file " +
 				"system returns true only under the fact !info.IsDir() (or as a conjunct of the returned expression); (C19.inmem) every access to InMemLoader.files uses the key normalize(param), " +
 				"normalize is path.Join(\"/\", filepath.ToSlash(p)), Open returns a reader over the stored bytes or a non-nil error when absent; (C19.multi) Multi ranges over its loaders front to back, " +
-				"returns at the first success, and construction/AddLoaders preserve argument order (append at the end). (C19.multi, continued) AddLoaders never copies the contents of another multi loader's list.",
+				"returns at the first success, and construction/AddLoaders preserve argument order (append at the end). (C19.multi, continued) AddLoaders never copies the contents of another multi loader's list. (C19.dir, continued) constructors of file-system loaders record their root as given and do not consult the file system. (C19.multi, continued) Multi.Open opens a member only where that member's Exists answered true for the same name.",
 			NotDecided:  "what the operating system / http.FileSystem / embed.FS return; Multi.Open choosing by first successful Open rather than first Exists (equivalent when members honour the contract); locking is C11.guard.",
 			Assumptions: []string{"os.Stat/fs.Stat/http.File.Stat report IsDir truthfully", "path.Join and filepath.ToSlash/FromSlash behave as documented"},
 			Trusted:     commonTrusted,
 		},
 		Mutants: []Mutant{
+			{Name: "Multi.Open opens a member without asking whether the template exists (original defect)", File: "loaders/multi/multi.go", Old: "\t\tif !loader.Exists(name) {\n\t\t\tcontinue // (Open of a file-system loader succeeds on a directory, which is not a template)\n\t\t}\n", New: "", Rule: "C19.multi"},
 			{Name: "httpfs rejects names containing two dots without asking the file system (agent seed C19/4)", File: "loaders/httpfs/loader.go", Old: "func (l *httpFileSystemLoader) Exists(name string) bool {\n", New: "func (l *httpFileSystemLoader) Exists(name string) bool {\n\tif len(name) > 2 && name[1] == '.' && name[2] == '.' {\n\t\treturn false\n\t}\n", Rule: "C19.dir"},
 			{Name: "InMemLoader.Set overwrites the previous entry's buffer in place", File: "loader.go", Old: "\tl.files[templatePath] = []byte(contents)", New: "\tif old, ok := l.files[templatePath]; ok && len(old) >= len(contents) {\n\t\tl.files[templatePath] = old[:copy(old, contents)]\n\t\treturn\n\t}\n\tl.files[templatePath] = []byte(contents)", Rule: "C19.inmem"},
 			{Name: "Multi.Open gives up at the first loader that reports another error than not-exist (agent seed C19/2)", File: "loaders/multi/multi.go", Old: "\t\tif f, err := loader.Open(name); err == nil {\n\t\t\treturn f, nil\n\t\t}\n", New: "\t\tf, err := loader.Open(name)\n\t\tif err == nil {\n\t\t\treturn f, nil\n\t\t}\n\t\tif !os.IsNotExist(err) {\n\t\t\treturn nil, err\n\t\t}\n", Rule: "C19.multi"},
@@ -43,7 +44,7 @@ func init() {
 			{Name: "normalize no longer roots the path", File: "loader.go", Old: "return path.Join(\"/\", templatePath)", New: "return path.Clean(templatePath)", Rule: "C19.inmem"},
 			{Name: "Multi.Exists consults loaders back to front", File: "loaders/multi/multi.go", Old: "\tfor _, loader := range m.loaders {\n\t\tif ok := loader.Exists(name); ok {\n\t\t\treturn true\n\t\t}\n\t}", New: "\tfor i := len(m.loaders) - 1; i >= 0; i-- {\n\t\tif ok := m.loaders[i].Exists(name); ok {\n\t\t\treturn true\n\t\t}\n\t}", Rule: "C19.multi"},
 			{Name: "AddLoaders prepends", File: "loaders/multi/multi.go", Old: "m.loaders = append(m.loaders, loaders...)", New: "m.loaders = append(loaders, m.loaders...)", Rule: "C19.multi"},
-			{Name: "Multi.Open keeps looking after a success (last wins)", File: "loaders/multi/multi.go", Old: "\tfor _, loader := range m.loaders {\n\t\tif f, err := loader.Open(name); err == nil {\n\t\t\treturn f, nil\n\t\t}\n\t}\n\treturn nil, &os.PathError", New: "\tvar res io.ReadCloser\n\tfor _, loader := range m.loaders {\n\t\tif f, err := loader.Open(name); err == nil {\n\t\t\tres = f\n\t\t}\n\t}\n\tif res != nil {\n\t\treturn res, nil\n\t}\n\treturn nil, &os.PathError", Rule: "C19.multi"},
+			{Name: "Multi.Open keeps looking after a success (last wins)", File: "loaders/multi/multi.go", Old: "\t\tif f, err := loader.Open(name); err == nil {\n\t\t\treturn f, nil\n\t\t}\n\t}\n\treturn nil, &os.PathError", New: "\t\tif f, err := loader.Open(name); err == nil {\n\t\t\tif res != nil {\n\t\t\t\tres.Close()\n\t\t\t}\n\t\t\tres = f\n\t\t}\n\t}\n\tif res != nil {\n\t\treturn res, nil\n\t}\n\treturn nil, &os.PathError", More: []Edit{{File: "loaders/multi/multi.go", Old: "func (m *Multi) Open(name string) (io.ReadCloser, error) {\n", New: "func (m *Multi) Open(name string) (io.ReadCloser, error) {\n\tvar res io.ReadCloser\n"}}, Rule: "C19.multi"},
 			{Name: "InMemLoader.Open serves another entry when absent", File: "loader.go", Old: "\tif !ok {\n\t\treturn nil, fmt.Errorf(\"%s does not exist\", templatePath)\n\t}\n", New: "\tif !ok {\n\t\tf = l.files[\"/\"]\n\t\t_ = fmt.Sprint\n\t}\n", Rule: "C19.inmem"},
 		},
 	})
@@ -523,6 +524,9 @@ func multiRules(c *an.Ctx) {
 					first := multiFirstWins(c, f)
 					// the element consulted is the range value
 					c.Check(first, "C19.multi", key+"/first-wins", ps.Pos(), "ranges front to back and returns at the first success", "the loop over the loaders does not return at the first success: a later loader can win")
+					// a member's Open alone is weaker than its Exists (a file-system loader opens directories): what
+					// Multi.Open hands out comes from a member that also said the template exists
+					multiOpensWhatExists(c, f)
 					// a failure of one loader must not end the search: every return inside the loop is a success return
 					giveUp := token.NoPos
 					ast.Inspect(ps.Body, func(m ast.Node) bool {
@@ -672,4 +676,114 @@ func multiFirstWins(c *an.Ctx, f *an.Fn) bool {
 	x.Run(nil)
 	c.States += x.Visited
 	return good && reached && x.Undecided == ""
+}
+
+// multiOpensWhatExists: every (jet.Loader).Open call of f lies on paths on which the same loader's Exists
+// answered true for the same name.
+func multiOpensWhatExists(c *an.Ctx, f *an.Fn) {
+	p := c.P
+	info := f.Info()
+	var opens []*ast.CallExpr
+	an.InspectOwn(f, func(n ast.Node) bool {
+		if call, ok := n.(*ast.CallExpr); ok && an.IsCallTo(info, call, "(jet.Loader).Open") {
+			opens = append(opens, call)
+		}
+		return true
+	})
+	if len(opens) == 0 {
+		return
+	}
+	okVars := map[types.Object]*ast.CallExpr{}
+	an.InspectOwn(f, func(n ast.Node) bool {
+		an.Assigns(n, func(lhs, rhs ast.Expr, _ token.Token) {
+			if rhs == nil {
+				return
+			}
+			if call, ok := an.Unparen(rhs).(*ast.CallExpr); ok && an.IsCallTo(info, call, "(jet.Loader).Exists") {
+				if id, ok := an.Unparen(lhs).(*ast.Ident); ok {
+					okVars[an.ObjOf(info, id)] = call
+				}
+			}
+		})
+		return true
+	})
+	sig := func(call *ast.CallExpr) string {
+		if len(call.Args) != 1 {
+			return ""
+		}
+		return an.Str(an.Receiver(call)) + "|" + an.Str(call.Args[0])
+	}
+	bad := token.NoPos
+	x := p.NewExplorer(f, an.Hooks{
+		Branch: func(x *an.Explorer, cond ast.Expr, val bool, st *an.State) {
+			e := an.Unparen(cond)
+			for {
+				u, ok := e.(*ast.UnaryExpr)
+				if !ok || u.Op != token.NOT {
+					break
+				}
+				val = !val
+				e = an.Unparen(u.X)
+			}
+			var ex *ast.CallExpr
+			if call, ok := e.(*ast.CallExpr); ok && an.IsCallTo(info, call, "(jet.Loader).Exists") {
+				ex = call
+			} else if id, ok := e.(*ast.Ident); ok {
+				ex = okVars[an.ObjOf(info, id)]
+			}
+			if ex != nil && val && sig(ex) != "" {
+				st.Set("exists:"+sig(ex), "1")
+			}
+		},
+		Assign: func(x *an.Explorer, lhs, rhs ast.Expr, stmt ast.Node, st *an.State) {
+			id, ok := an.Unparen(lhs).(*ast.Ident)
+			if !ok {
+				return
+			}
+			for k := range st.Regs {
+				if strings.HasPrefix(k, "exists:") {
+					parts := strings.SplitN(strings.TrimPrefix(k, "exists:"), "|", 2)
+					if len(parts) == 2 && (mentions(parts[0], id.Name) || mentions(parts[1], id.Name)) {
+						st.Set(k, "")
+					}
+				}
+			}
+		},
+		Call: func(x *an.Explorer, call *ast.CallExpr, st *an.State) {
+			if !an.IsCallTo(info, call, "(jet.Loader).Open") {
+				return
+			}
+			if st.Get("exists:"+sig(call)) == "" && !bad.IsValid() {
+				bad = call.Pos()
+			}
+		},
+	})
+	x.Run(nil)
+	c.States += x.Visited
+	key := f.Name + "/opens-what-exists"
+	if x.Undecided != "" {
+		c.Undecided("C19.multi", key, f.Pos(), "%s", x.Undecided)
+		return
+	}
+	c.Check(!bad.IsValid(), "C19.multi", key, opens[0].Pos(), "a member loader is opened only after its Exists answered true for the same name",
+		f.Name+" opens a member loader that was not asked (or did not confirm) that the template exists: the Open of a file-system loader also succeeds on a directory, so Exists and Open of the multi loader disagree and a later loader that has the template is hidden")
+}
+
+// mentions: identifier name occurs as a whole word in the rendered expression s.
+func mentions(s, name string) bool {
+	for i := 0; i+len(name) <= len(s); i++ {
+		if s[i:i+len(name)] != name {
+			continue
+		}
+		before := i == 0 || !isWordByte(s[i-1])
+		after := i+len(name) == len(s) || !isWordByte(s[i+len(name)])
+		if before && after {
+			return true
+		}
+	}
+	return false
+}
+
+func isWordByte(b byte) bool {
+	return b == '_' || b >= '0' && b <= '9' || b >= 'a' && b <= 'z' || b >= 'A' && b <= 'Z'
 }
